@@ -911,4 +911,44 @@ func (p c13) selectionOps(e *c13env, leafPaths []string) {
 			}
 		}
 	}
+	// an entry replaced / upserted with its own content through parameters that select everything but its key leaves
+	done := 0
+	for _, ap := range e.t.AllPaths() {
+		mn, _, mparent := e.t.Resolve(ap)
+		last := ap[len(ap)-1]
+		if mn == nil || last.Key == nil || !plainKeys(ap) || done >= 4 {
+			continue
+		}
+		done++
+		holder := dp.NewDNode(mparent.S)
+		holder.Lists[last.Name] = &dp.DList{S: mn.S, Entries: []*dp.DNode{mn.Clone()}}
+		doc := dp.EncodeJSON(e.s, holder, dp.JOpts{})
+		hide := []string{"?fields=" + mn.S.Name, "?depth=1", "?fc.xfields=" + mn.S.Keys[0], "?content=nonconfig"}
+		for _, c := range mn.S.Children {
+			if c.Kind == dp.Leaf && !c.IsKey() {
+				hide = append(hide, "?fields="+c.Name)
+				break
+			}
+		}
+		tgt := dp.PathString(ap)
+		for _, prm := range hide {
+			for _, oo := range []string{"replace", "upsert"} {
+				prm, oo := prm, oo
+				e.try("selection-op", oo+"-entry/"+strings.SplitN(prm[1:], "=", 2)[0]+"-hides-key", fmt.Sprintf("%s %q%s <- %s", oo, tgt, prm, head(doc, 300)), false, func() error {
+					sel, err := e.browser().Root().Find(tgt + prm)
+					if err != nil || sel == nil {
+						return err
+					}
+					src, err := nodeutil.ReadJSON(doc)
+					if err != nil {
+						return err
+					}
+					if oo == "replace" {
+						return sel.ReplaceFrom(src)
+					}
+					return sel.UpsertFrom(src)
+				})
+			}
+		}
+	}
 }
